@@ -61,6 +61,10 @@ def main(tier: str) -> int:
         else:
             rows = [tuple(rng.randint(0, 1) for _ in range(total)) for _ in range(64)]
             rows += [tuple([0] * total), tuple([1] * total)]
+            # neighbouring codes of the last variable (they must still decode to different points)
+            for base in rows[:8]:
+                rows.append(tuple(base[:-1]) + (1 - base[-1],))
+            rows = list(dict.fromkeys(rows))
         pop = np.array(rows, dtype=dtype)
         before = pop.copy()
         try:
@@ -114,6 +118,20 @@ def main(tier: str) -> int:
                 bad = int(np.argmax(np.any(back.astype(np.int64) != exp, axis=1)))
                 chk.fail("inverse_transform(transform(b)) != b", {"grid": cls.__name__, "bits": bits, "row": list(rows[bad]), "back": [int(x) for x in back[bad]]},
                          {"fn": "inverse_transform", "clause": "roundtrip"})
+        # two batches of the same size encoded one after the other: the strings handed out for the first stay what they were
+        if len(out) >= 4:
+            k2 = len(out) // 2
+            try:
+                s1 = g.inverse_transform(np.array(out[:k2]))
+                s1_then = np.array(s1, copy=True)
+                g.inverse_transform(np.array(out[k2: 2 * k2]))
+                chk.count("held_result")
+                if not np.array_equal(s1, s1_then):
+                    chk.fail("inverse_transform(transform(b)) != b", {"grid": cls.__name__, "bits": bits, "scenario": "the strings returned for one batch changed when the next batch of the same size was encoded",
+                                                                       "rows_changed": int(np.sum(np.any(np.asarray(s1) != s1_then, axis=1)))},
+                             {"fn": "inverse_transform", "clause": "held_result"})
+            except Exception:
+                pass
         # inverse on random points of the box: model equality + nearest grid point
         pts = np.array([[rng.uniform(left[v], right[v]) for v in range(nvar)] for _ in range(8)] + [list(right)])
         try:
@@ -154,6 +172,9 @@ def main(tier: str) -> int:
         one_grid(cls, [0.0], [1.0], [17], np.int8, full=False)
         one_grid(cls, [-1.0, 2.0], [1.0, 3.0], [20, 3], np.float64, full=False)
         one_grid(cls, [0.0], [8.0], [33], np.int8, full=False)
+        # "every box and step": steps near and below 1e-12 - a tiny box with few bits, the 40-bit example of fit's docstring
+        one_grid(cls, [0.0, 5e-12], [1e-11, 3e-11], [4, 3], np.int8)
+        one_grid(cls, [0.9], [1.5], [40], np.int8, full=False)
 
     # Gray adjacency through the public static methods
     for w in range(1, wmax + 1):
